@@ -101,6 +101,17 @@ func (ev *c10Eval) expr(e ast.Expr, env c10Env, depth int) c10Val {
 				return base.Args[i]
 			}
 		}
+		if ps, isText := c10Pieces(base); isText {
+			if pc, off, ok := ev.resolvePos(ps, idx); ok {
+				if pc >= len(ps) {
+					ev.pan = "index out of range of the string"
+					return ev.unknownOf(tv.Type, ev.pan)
+				}
+				if !c10OpaqueLen(ps[pc]) {
+					return c10IntVal(c10ConstVec(uint64(ps[pc].Lit[off]), 8, false))
+				}
+			}
+		}
 		if base.K == c10VMap {
 			v, found, ok := ev.mapIndex(base, idx)
 			if ok {
@@ -111,6 +122,46 @@ func (ev *c10Eval) expr(e ast.Expr, env c10Env, depth int) c10Val {
 			}
 		}
 		return ev.unknownOf(tv.Type, "indexed value")
+	case *ast.SliceExpr:
+		base := ev.expr(x.X, env, depth)
+		var lo, hi *c10Val
+		if x.Low != nil {
+			v := ev.expr(x.Low, env, depth)
+			lo = &v
+		}
+		if x.High != nil {
+			v := ev.expr(x.High, env, depth)
+			hi = &v
+		}
+		if ps, isText := c10Pieces(base); isText && !x.Slice3 {
+			if v, pan, ok := ev.textSlice(ps, lo, hi); ok {
+				if pan != "" {
+					ev.pan = pan
+					return ev.unknownOf(tv.Type, pan)
+				}
+				return v
+			}
+		}
+		if base.K == c10VSlice && !x.Slice3 {
+			l, h := int64(0), int64(len(base.Args))
+			okB := true
+			if lo != nil {
+				l, okB = lo.V.signedConst()
+				okB = okB && lo.K == c10VInt
+			}
+			if hi != nil && okB {
+				h, okB = hi.V.signedConst()
+				okB = okB && hi.K == c10VInt
+			}
+			if okB {
+				if l < 0 || h > int64(len(base.Args)) || l > h {
+					ev.pan = "slice bounds out of range"
+					return ev.unknownOf(tv.Type, ev.pan)
+				}
+				return c10SliceVal(base.Args[l:h])
+			}
+		}
+		return ev.unknownOf(tv.Type, "slice expression")
 	case *ast.CompositeLit:
 		return ev.compositeLit(x, env, depth)
 	case *ast.FuncLit:
@@ -287,6 +338,9 @@ func (ev *c10Eval) binary(x *ast.BinaryExpr, env c10Env, depth int) c10Val {
 	}
 	a := ev.expr(x.X, env, depth)
 	b := ev.expr(x.Y, env, depth)
+	if v, ok := ev.posBinary(x.Op, a, b); ok {
+		return v
+	}
 	switch x.Op {
 	case token.EQL, token.NEQ:
 		ev.noteStrCmp(x.X, x.Y, a, b)
@@ -354,9 +408,6 @@ func (ev *c10Eval) binary(x *ast.BinaryExpr, env c10Env, depth int) c10Val {
 	if x.Op == token.ADD {
 		if pa, ok := c10Pieces(a); ok {
 			if pb, ok := c10Pieces(b); ok {
-				if (a.K == c10VStr && c10IsGeneric(a.S)) || (b.K == c10VStr && c10IsGeneric(b.S)) {
-					return c10OpaqueVal("concatenation with a generic text")
-				}
 				return c10MkText(append(append([]c10Piece{}, pa...), pb...))
 			}
 		}
@@ -401,6 +452,40 @@ func (ev *c10Eval) binary(x *ast.BinaryExpr, env c10Env, depth int) c10Val {
 				return c10IntVal(a.V.shl(int(u)))
 			}
 			return c10IntVal(a.V.shr(int(u)))
+		}
+	case token.MUL, token.QUO, token.REM:
+		// by a constant power of two: a shift / a mask (division and remainder only for non-negative values,
+		// where Go's truncated division agrees with the shift)
+		pv, cv := a, b
+		if _, isConst := a.V.constant(); isConst && x.Op == token.MUL {
+			if _, bConst := b.V.constant(); !bConst {
+				pv, cv = b, a
+			}
+		}
+		if u, ok := cv.V.constant(); ok && u != 0 && u&(u-1) == 0 && u>>62 == 0 {
+			k := 0
+			for u>>uint(k) != 1 {
+				k++
+			}
+			switch {
+			case x.Op == token.MUL:
+				return c10IntVal(pv.V.shl(k))
+			case x.Op == token.QUO && pv.V.nonNegative():
+				return c10IntVal(pv.V.shr(k))
+			case x.Op == token.REM && pv.V.nonNegative():
+				return c10IntVal(pv.V.and(c10ConstVec(u-1, pv.V.W, pv.V.Signed)))
+			}
+		}
+		if ac, ok := a.V.signedConst(); ok {
+			if bc, ok := b.V.signedConst(); ok && a.V.Signed && (x.Op == token.MUL || bc != 0) {
+				r := map[token.Token]int64{token.MUL: ac * bc}[x.Op]
+				if x.Op == token.QUO {
+					r = ac / bc
+				} else if x.Op == token.REM {
+					r = ac % bc
+				}
+				return c10IntVal(c10ConstVec(uint64(r), a.V.W, true))
+			}
 		}
 	}
 	return ev.unknownOf(tv.Type, "operator "+x.Op.String()+" has no transfer function for these operands")
@@ -559,6 +644,9 @@ func (ev *c10Eval) stringsCall(fn *types.Func, args []c10Val, t types.Type) (c10
 	if len(args) < 2 {
 		return c10Val{}, false
 	}
+	if v, ok := ev.stringsPosCall(fn, args); ok {
+		return v, true
+	}
 	if fn.Name() == "Join" && args[0].K == c10VSlice && args[1].K == c10VStr {
 		var all []c10Piece
 		for i, el := range args[0].Args {
@@ -639,6 +727,9 @@ func (ev *c10Eval) callExpr(call *ast.CallExpr, env c10Env, depth int) c10Val {
 					out.Tag = a.Tag // same integer order
 				}
 				out.Len = a.Len
+				if w >= a.V.W {
+					out.Pos = a.Pos
+				}
 				return out
 			}
 			return ev.unknownOf(ftv.Type, "conversion of a non-integer")
@@ -674,6 +765,9 @@ func (ev *c10Eval) callExpr(call *ast.CallExpr, env c10Env, depth int) c10Val {
 				return c10IntVal(c10ConstVec(0, w, s))
 			case a.K == c10VStr && !c10IsGeneric(a.S):
 				return c10IntVal(c10ConstVec(uint64(len(a.S)), w, s))
+			case a.K == c10VStr || a.K == c10VText:
+				ps, _ := c10Pieces(a)
+				return ev.posVal(ps, len(ps), 0) // the end of the text as a cut point
 			}
 			v := ev.unknownOf(types.Typ[types.Int], "length of an untracked value")
 			v.V.L[63] = c10Lane{} // lengths are non-negative
@@ -687,6 +781,9 @@ func (ev *c10Eval) callExpr(call *ast.CallExpr, env c10Env, depth int) c10Val {
 		}
 		if len(args) > 0 && (args[0].K == c10VSlice || args[0].K == c10VNil) && !call.Ellipsis.IsValid() {
 			return c10SliceVal(append(append([]c10Val{}, args[0].Args...), args[1:]...))
+		}
+		if len(args) == 2 && call.Ellipsis.IsValid() && (args[0].K == c10VSlice || args[0].K == c10VNil) && (args[1].K == c10VSlice || args[1].K == c10VNil) {
+			return c10SliceVal(append(append([]c10Val{}, args[0].Args...), args[1].Args...))
 		}
 		return ev.unknownOf(tv.Type, "append to an untracked slice")
 	case "make":
@@ -703,6 +800,9 @@ func (ev *c10Eval) callExpr(call *ast.CallExpr, env c10Env, depth int) c10Val {
 	case "":
 	default:
 		return ev.unknownOf(tv.Type, "builtin "+builtinName(ev.info, call))
+	}
+	if v, ok := ev.builderExpr(call, env); ok {
+		return v
 	}
 	fn := callee(ev.info, call)
 	if fn == nil {
